@@ -303,10 +303,36 @@ func detBits(xs ...float64) string {
 
 var detMu sync.Mutex
 
+// detPerturb makes detOnce1 run a VARIANT of the case: same characters and equipment at the next
+// ascension / other eidolon, imposition, enemy level and seed.  The variant's outcome is discarded; it
+// runs between in-process repetitions so that process-wide state keyed too coarsely (a cache keyed by
+// character and level but not ascension, a counter that survives a run) shows up as a difference
+// between repetition 0 and the later in-process repetitions, while fresh processes agree with 0.
+var detPerturb bool
+
 func detOnce1(in term.T) (rep detRep) {
 	detMu.Lock()
 	defer detMu.Unlock()
 	cfg, script, seed, probes := detConfig(in)
+	if detPerturb {
+		for _, ch := range cfg.Characters {
+			ch.MaxLevel += 10
+			if ch.MaxLevel > 80 {
+				ch.MaxLevel = 80
+			}
+			ch.Eidols = (ch.Eidols + 3) % 7
+			ch.LightCone.MaxLevel += 10
+			if ch.LightCone.MaxLevel > 80 {
+				ch.LightCone.MaxLevel = 80
+			}
+			ch.LightCone.Imposition = (ch.LightCone.Imposition+1)%5 + 1
+			ch.StartEnergy = 0
+		}
+		for _, en := range cfg.Enemies {
+			en.Level++
+		}
+		seed += 7919
+	}
 	lg := &detLogger{}
 	// print() of gcs scripts goes to os.Stdout: capture it
 	tmp, err := os.CreateTemp("", "detout")
@@ -472,6 +498,13 @@ func runDet(in term.T) term.T {
 		}(i)
 	}
 	for i := 0; i < detInProcess; i++ {
+		if i != 1 {
+			// a different run of the same team before repetition 0 and before repetition 2 (its outcome
+			// is not compared): the fresh processes run the case alone
+			detPerturb = true
+			_ = detOnce1(in)
+			detPerturb = false
+		}
 		reps[i] = detOnce1(in)
 	}
 	wg.Wait()
